@@ -44,6 +44,7 @@ type FuncResult struct {
 	Panicked    int
 	Errors      []string
 	Obligations []*Obligation
+	Cover       *Obligation
 }
 
 // makeParam creates the symbolic value of a parameter.
@@ -188,6 +189,14 @@ func (en *Engine) VerifyFunction(fn *ssa.Function, fc *FuncContract, pc *PkgCont
 		}
 		res.Returned++
 		en.checkReturn(s, sc, fc, fn, entryMem, paramRegions)
+		if res.Cover == nil {
+			res.Cover = &Obligation{Name: en.curFunc + "[" + en.cfgName + "]/cover#1", Kind: "cover", Func: en.curFunc, Facts: s.facts[:len(s.facts):len(s.facts)], Goal: nil, Detail: "vacuity guard: the assumptions along a returning path (preconditions, invariants, callee postconditions) are satisfiable"}
+		}
+	}
+	if res.Cover == nil && len(finals) > 0 {
+		// only panicking paths: cover one of them
+		s := finals[0]
+		res.Cover = &Obligation{Name: en.curFunc + "[" + en.cfgName + "]/cover#1", Kind: "cover", Func: en.curFunc, Facts: s.facts[:len(s.facts):len(s.facts)], Goal: nil, Detail: "vacuity guard: the assumptions along a terminating path are satisfiable"}
 	}
 	return
 }
